@@ -278,3 +278,74 @@ def full_fingerprint(c):
             tuple(c._external_heralds["input"].items()),
             tuple(c._external_heralds["output"].items()),
             spec_struct(c._get_circuit_spec()))
+
+
+# ---------------------------------------------------------------------------
+# recipes: JSON-able descriptions of whole circuits (used by the emulator checks)
+# ---------------------------------------------------------------------------
+def build(recipe, env):
+    """recipe = {"n": n, "ops": [...]} -> (real circuit, RefCircuit)."""
+    from .props.c02 import make_sub
+    n = recipe["n"]
+    c, r = lw.Circuit(n), RefCircuit(n)
+    for op in recipe["ops"]:
+        op = tuple(op)
+        if op[0] == "her":
+            c.herald(op[1], op[2], op[3]); r.herald(op[1], op[2], op[3])
+        elif op[0] == "add":
+            s, sr = make_sub(op[1], env)
+            c.add(s, op[2], group=op[3]); r.add(sr, op[2])
+        else:
+            if op[0] == "sw":
+                op = ("sw", tuple(tuple(p) for p in op[1]))
+            c = apply_impl(c, op, env)
+            apply_ref(r, op, env)
+    return c, r
+
+
+def emulator_family(env, tier="quick"):
+    """Circuits crossing n x loss placement x herald layout, as recipes."""
+    fam = []
+    g, g2 = env.L[1], env.L2
+    for n in (2, 3, 4):
+        uni = ("uni", n, 0, False)
+        bases = {
+            "U": [uni],
+            "U,L": [uni, ("loss", 0, g), ("bs", 0, n - 1, env.R[1], "H", 0)],
+            "L,U,L": [("loss", n - 1, g2), uni, ("loss", 0, g)],
+            "bsL,U": [("bs", 0, n - 1, env.R2, "Rx", g2), uni],
+            "U,L0,L1": [uni, ("loss", 0, 0), ("loss", n - 1, 1), ("bs", n - 1, 0, env.R[1], "Rx", 0)],
+        }
+        mid = n // 2
+        heralds = {
+            "none": [],
+            "h0": [("her", 0, mid, mid)],
+            "h1": [("her", 1, mid, mid)],
+            "h2": [("her", 2, n - 1, n - 1)],
+            "io": [("her", 1, 0, n - 1)],
+        }
+        if n >= 3:
+            heralds["two_desc"] = [("her", 1, n - 1, 0), ("her", 0, 0, 1)]
+            heralds["two_ph"] = [("her", 1, 1, 2), ("her", 1, 0, 0)]
+        for bn, bops in bases.items():
+            for hn, hops in heralds.items():
+                fam.append({"name": "n%d/%s/%s" % (n, bn, hn), "n": n, "ops": bops + hops})
+        # internal ancillas from heralded sub-circuits (+ an external herald next to them)
+        fam.append({"name": "n%d/sub_h3mid" % n, "n": n,
+                    "ops": [("add", "h3mid", 0, False), ("bs", 0, n - 1, env.R[1], "Rx", 0)]})
+        fam.append({"name": "n%d/sub_lossy+her" % n, "n": n,
+                    "ops": [("bs", 0, 1, env.R2, "H", 0), ("add", "lossy", n - 2, False),
+                            ("loss", 0, g), ("her", 1, 0, 1)]})
+        if n >= 3:
+            fam.append({"name": "n%d/sub_h4desc" % n, "n": n,
+                        "ops": [uni, ("add", "h4desc", 1, False), ("ps", 0, env.PH[0], 0)]})
+    if tier == "quick":
+        # keep every n=2,3 circuit; thin n=4 to one loss placement per herald layout + subs
+        fam = [f for f in fam if f["n"] < 4 or "sub" in f["name"] or "/U,L/" in f["name"]
+               or f["name"].endswith("/none")]
+    return fam
+
+
+def visible_inputs(c, max_photons):
+    from . import ref_fock
+    return ref_fock.basis_upto(c.input_modes, max_photons)
